@@ -79,6 +79,18 @@ def ts_lines(rng, n):
             1414274399, 1414274400, 354920400, 1301184000]
     for _ in range(n):
         secs.append(rng.randrange(0, 2 ** 32))
+    big = [2 ** 32, 2 ** 32 + 1, 2 ** 33, 4294967296 + 1700000000, 253402300799 - 1, 253402300799, 253402300800, 2 ** 40, 2 ** 63]
+    for _ in range(max(4, n // 4)):
+        big.append(rng.randrange(2 ** 32, 253402300800))
+    for s in big:      # beyond 32 bits: 8-byte fields only (certificate validity, SCT)
+        if s <= 253402300799:
+            lines.append('cts 0 8 %d 0' % s)
+        lines.append('pts 0 8 %s' % s.to_bytes(8, 'big').hex())
+        if s * 1000 + 999 < 2 ** 64:
+            ms = rng.choice([0, 999])
+            if s <= 253402300799:
+                lines.append('cts 1 8 %d %d' % (s, ms * 1000))
+            lines.append('pts 1 8 %s' % (s * 1000 + ms).to_bytes(8, 'big').hex())
     for s in secs:
         for w in (4, 8):
             lines.append('cts 0 %d %d 0' % (w, s))
@@ -128,6 +140,19 @@ def predicate(line, out):
             exp = 'OK ' + n.to_bytes(4, 'big').hex() + z.to_bytes(n, 'big').hex()
             if out != exp:
                 return 'compose_ssh_mpint(%d) gave %s, expected RFC 4251 %s' % (z, out, exp)
+    if ws[0] == 'pts':
+        ms, w, b = ws[1] == '1', int(ws[2]), bytes.fromhex(ws[3])
+        if len(b) >= w:
+            v = int.from_bytes(b[:w], 'big')
+            secs = v // 1000 if ms else v
+            if v == 256 ** w - 1:
+                exp = 'OK none n=%d' % w
+            elif secs > 253402300799:
+                exp = 'ERR InvalidValue'
+            else:
+                exp = 'OK %d %d n=%d' % (secs, (v % 1000) * 1000 if ms else 0, w)
+            if out != exp:
+                return 'parse_timestamp(%s, ms=%s, size %d) gave %s, the field holds %s' % (b[:w].hex(), ms, w, out, exp)
     if ws[0] == 'cts' and ws[3] != 'none':
         ms, w, s, mic = ws[1] == '1', int(ws[2]), int(ws[3]), int(ws[4])
         v = s * 1000 + mic // 1000 if ms else s
